@@ -14,6 +14,8 @@ one abstract run per external signing entry point (pure; HashML-DSA x 3 pre-hash
       (IntegerToBytes(x, 2) = x mod 2^16): kappa advances by exactly l on every path back to the
       loop head.
   S5  c~ = first lambda/4 bytes of H(mu | w1Encode(w1)); SampleInBall absorbs the whole c~.
+  S5b SampleInBall skeleton (Alg. 29): tau of Table 1; the 8 sign bytes are squeezed first, index bytes one at a
+      time from offset 8; the loop visits exactly positions 256-tau..255 with sign-bit index 0..tau-1; output in {-1,0,1}.
   S6  emit condition: at the call of sigEncode the path condition bounds the four rejection
       quantities exactly as Alg. 7 lines 23 / 28: ||z|| <= gamma1-beta-1, ||r0|| <= gamma2-beta-1,
       ||ct0|| <= gamma2-1, number of hint ones <= omega  (upper bounds equal, not merely below).
@@ -26,7 +28,7 @@ one abstract run per external signing entry point (pure; HashML-DSA x 3 pre-hash
       With C18 F (the transforms are the FIPS maps) every step of Sign_internal is accounted for.
   S10 w1Encode is SimpleBitPack with the FIPS bit order (every coefficient bit a boolean symbol, output
       bytes as exact forms); the z packing is BitPack in the FIPS order by C08 R4 + R5.
-Not decided: SampleInBall's shuffle as an algorithm, HintBitPack's layout beyond C08 R1, the fill
+Not decided: SampleInBall's swap step (c_i <- c_j with j <= i; hash values are opaque), HintBitPack's layout beyond C08 R1, the fill
 order of the rejection samplers.  Trusted: hash implementations; NTT diagonalisation (mathematics).
 """
 import os
@@ -42,7 +44,7 @@ import vlib
 import c06
 import c15
 
-EXTRA = {"peel": "ml_dsa::sign_internal:2", "probe": "hashing::expand_mask|encodings::sig_encode|hashing::rej_ntt_poly", "track_ret": "helpers::infinity_norm|Iterator::sum"}
+EXTRA = {"peel": "ml_dsa::sign_internal:2", "probe": "hashing::expand_mask|encodings::sig_encode|hashing::rej_ntt_poly|hashing::sample_in_ball", "track_ret": "helpers::infinity_norm|Iterator::sum"}
 
 
 def sign_rules(j, P, s, mode, ob):
@@ -132,6 +134,8 @@ def sign_rules(j, P, s, mode, ob):
     oks = len(sib) >= 1 and all(len(x["items"]) == 1 and x["items"][0]["len"] == [lam4, lam4] and any(st.flows_from(x["items"][0], j, c_, lam4) for c_ in chs) for x in sib)
     ob(oks, "S5:challenge-from-whole-ctilde:%s" % ent, {"rule": "S5 SampleInBall absorbs the whole c~ (the lambda/4 bytes read from a commitment hash)", "entry": j["root"], "set": s,
                                                          "sites": [x["rendered"][:120] for x in sib[:3]]})
+    # S5b: the part of SampleInBall's shuffle that is visible in the shape of the code
+    st.sample_in_ball_shape(j, P, ob, "sign:%s" % ent, sib)
     # S6
     norms, sums = st.emit_condition(j, P, s, ent, ob, "S6")
     return {"set": s, "mode": mode, "kappa": kap[:6], "emit_condition": {kx.split(": ", 1)[1]: list(v) for kx, v in list(norms.items()) + list(sums.items())}}
